@@ -3,10 +3,12 @@ from __future__ import annotations
 
 import io
 import itertools
+import os
 import tarfile
 
 from mc.builders import vmtar as B
 from mc.diskcheck import sliced
+from mc.scratch import scratch_dir
 
 PROPERTY = "C20"
 LEVEL = "model_checking"
@@ -60,7 +62,7 @@ def run_shard(shard, ctx):
                      "pax-size-before-nonregular-with-offset", "data-inside-header-area", "names-with-magic-text",
                      "ustar-prefix-lengths", "stacked-pax-xsize+g", "stacked-pax-xsize+xpath", "stacked-pax-g+xsize",
                      "stacked-pax-xpath+xsize", "stacked-pax-Xsize+g", "stacked-pax-xsize+g+xpath", "shared-data-offsets",
-                     "pax-size-for-visor-member"):
+                     "pax-size-for-visor-member", "shared-raw-handle-file", "shared-raw-handle-stream"):
             run_case({"special": what}, ctx)
         return
     if shard.get("high"):
@@ -171,9 +173,8 @@ def _case_special(case, ctx):
             elif what == "open-by-name-after-fileobj":
                 # different ways of naming the archive in one process, with different keyword arguments each time: every open
                 # stands for itself
-                import os
 
-                from mc.scratch import scratch_dir
+                pass  # (scratch_dir is imported at module level)
 
                 ma = [("a/", "vdir", b""), ("a/one", "visor", b"1" * 600)]
                 mb = [("b/", "vdir", b""), ("b/two", "visor", b"2" * 700), ("b/u", "ustar", b"U" * 513)]
@@ -240,6 +241,59 @@ def _case_special(case, ctx):
                 if ref is not None and ref != exp:
                     raise AssertionError(f"harness: the standard reader disagrees with the expectation: {str(ref)[:200]}")
                 got = _listing(vmtar.open(fileobj=io.BytesIO(img)))
+            elif what.startswith("shared-raw-handle"):
+                # two archive objects (and the caller) use one unbuffered handle in turn: every extraction returns the member's
+                # bytes whatever the others did in between.  Every sequence of three steps.
+                spec = [("r/small", 100, 4096), ("r/mid", 700, 12288 + 300), ("r/big", 9000, 8192 - 200), ("r/tail", 5000, 24576)]
+                head = b"".join(B.hdr(nm, sz, offset_data=off) for nm, sz, off in spec) + b"\0" * 1024
+                raw = bytearray(head.ljust(4096, b"\0") + _data(9, 40000))
+                content = {nm: bytes(raw[off:off + sz]) for nm, sz, off in spec}
+                steps = [("A", "r/small"), ("A", "r/big"), ("B", "r/mid"), ("B", "r/big"), ("A", "r/tail"), ("caller", None)]
+                exp, got = [], []
+
+                class _Raw(io.RawIOBase):
+                    def __init__(self, data):
+                        self._b = io.BytesIO(data)
+
+                    def readable(self):
+                        return True
+
+                    def seekable(self):
+                        return True
+
+                    def readinto(self, b):
+                        return self._b.readinto(b)
+
+                    def seek(self, off, whence=0):
+                        return self._b.seek(off, whence)
+
+                    def tell(self):
+                        return self._b.tell()
+
+                with scratch_dir() as d_:
+                    path = os.path.join(d_, "a.vtar")
+                    with open(path, "wb") as f:
+                        f.write(raw)
+                    for seq in itertools.product(range(len(steps)), repeat=3):
+                        fh = open(path, "rb", buffering=0) if what.endswith("file") else _Raw(bytes(raw))
+                        try:
+                            arch = {"A": vmtar.open(fileobj=fh), "B": vmtar.VisorTarFile(fileobj=fh)}
+                            e_, g_ = [], []
+                            for si in seq:
+                                who, nm = steps[si]
+                                if who == "caller":
+                                    fh.seek(0, 2)
+                                    fh.seek(17)
+                                    fh.read(10)
+                                    continue
+                                e_.append((who, nm, content[nm]))
+                                g_.append((who, nm, arch[who].extractfile(nm).read()))
+                            if g_ != e_:
+                                exp.append(e_)
+                                got.append([(w, n, x[:16]) for w, n, x in g_])
+                                break
+                        finally:
+                            fh.close()
             elif what == "pax-size-for-visor-member":
                 # a regular visor member whose header leaves the size field 0 and whose real size is in a pax record: its bytes
                 # are the ones at its recorded data offset, and the members behind it are still listed
